@@ -71,7 +71,7 @@ func (q *InQueue) waitNonEmtpyQueue() error {
 		return nil
 	}
 
-	wait := make(chan struct{}, 0)
+	wait := make(chan struct{}, 1) // buffered: the notifier must not block if this waiter has already given up (deadline)
 	q.queueNotifiers = append(q.queueNotifiers, func() {
 		wait <- struct{}{}
 	})
@@ -289,7 +289,7 @@ func (q *OutQueue) waitEmptyQueue() error {
 		return nil
 	}
 
-	wait := make(chan struct{}, 0)
+	wait := make(chan struct{}, 1) // buffered: the notifier must not block if this waiter has already given up (deadline)
 	q.queueNotifiers = append(q.queueNotifiers, func() {
 		wait <- struct{}{}
 	})
